@@ -345,7 +345,7 @@ class DepCall(Contract):
         cx.oblige("frame.call", not self.obj.writes, "frame", "evaluation does not change the dependence function")
 
 
-FIT_CASES = [dict(weights=w, cons=c) for w in ("none", "callable") for c in ("none", "given")] + [dict(weights="none", cons="none", fail=True)]
+FIT_CASES = [dict(weights=w, cons=c) for w in ("none", "callable", "returns_y") for c in ("none", "given")] + [dict(weights="none", cons="none", fail=True)]
 
 
 @contract(DF + "._fit", ["C14"], FIT_CASES, name="depfunc._fit")
@@ -390,9 +390,10 @@ class DepFit(Contract):
         class W(DepFn):
             def call(self_, itp_, args, kwargs):
                 self_.calls.append(list(args))
-                self_.result = sym_array(itp_.cx, "sigma", (args[0].shape[0],))
+                # either a fresh vector or - as in the predefined models (lambda x, y: y) - the y argument itself
+                self_.result = args[1] if case["weights"] == "returns_y" else sym_array(itp_.cx, "sigma", (args[0].shape[0],))
                 return self_.result
-        self.wfn = W("weights") if case["weights"] == "callable" else None
+        self.wfn = W("weights") if case["weights"] in ("callable", "returns_y") else None
         self.obj = new_depfunc(itp, self.func, bounds=self.bounds, constraints=self.cons, weights=self.wfn)
         self.p0 = {p: real(cx, f"cur_{p}") for p in ("a", "b", "c")}
         self.obj.fields["parameters"] = dict(self.p0)
@@ -434,6 +435,7 @@ class DepFit(Contract):
                       and self.wfn.calls[0][0] is self.x and self.wfn.calls[0][1] is self.y, "post", "weights = weights(x, y), weighted method")
         else:
             cx.oblige("post.forwarding.weights", b.get("method") == "lsq" and b.get("weights") is None, "post")
+        cx.oblige("frame.support_points", self.x.buf.writes == 0 and self.y.buf.writes == 0, "frame", "the caller's support points are not written (also when the weights callable returns one of them)")
         pars = self.obj.fields.get("parameters")
         cx.oblige("post.write_back", isinstance(pars, dict) and list(pars) == ["a", "b", "c"] and all(pars[p] is v for p, v in zip(["a", "b", "c"], self.popt)), "post",
                   "fitted values written back to the parameters position by position")
